@@ -1,0 +1,68 @@
+//! Verification hooks (cargo feature `verif`). Inert unless a harness arms them.
+//!
+//! Thread-local counters of parser work and an optional fuel budget. When fuel
+//! is armed and runs out, `tick` panics with `FUEL_EXHAUSTED` so that a harness
+//! can tell non-termination from an ordinary panic deterministically.
+use std::cell::Cell;
+
+pub const FUEL_EXHAUSTED: &str = "verif: fuel exhausted";
+
+#[derive(Debug, Clone, Copy, PartialEq, Eq)]
+pub enum Tick {
+    Lex,
+    StartNode,
+    Save,
+    IncludeWalk,
+}
+
+#[derive(Debug, Clone, Copy, Default, PartialEq, Eq)]
+pub struct Counters {
+    pub lex_calls: u64,
+    pub nodes_started: u64,
+    pub tokens_saved: u64,
+    pub include_walk: u64,
+}
+
+thread_local! {
+    static FUEL: Cell<Option<u64>> = const { Cell::new(None) };
+    static COUNTERS: Cell<Counters> = const { Cell::new(Counters {
+        lex_calls: 0,
+        nodes_started: 0,
+        tokens_saved: 0,
+        include_walk: 0,
+    }) };
+}
+
+/// Resets the counters of the calling thread and sets its fuel (`None` = unlimited).
+pub fn arm(fuel: Option<u64>) {
+    FUEL.with(|f| f.set(fuel));
+    COUNTERS.with(|c| c.set(Counters::default()));
+}
+
+/// Counters of the calling thread since the last `arm`.
+pub fn counters() -> Counters {
+    COUNTERS.with(|c| c.get())
+}
+
+#[inline]
+pub fn tick(kind: Tick) {
+    COUNTERS.with(|c| {
+        let mut v = c.get();
+        match kind {
+            Tick::Lex => v.lex_calls += 1,
+            Tick::StartNode => v.nodes_started += 1,
+            Tick::Save => v.tokens_saved += 1,
+            Tick::IncludeWalk => v.include_walk += 1,
+        }
+        c.set(v);
+    });
+    FUEL.with(|f| {
+        if let Some(left) = f.get() {
+            if left == 0 {
+                f.set(None);
+                panic!("{}", FUEL_EXHAUSTED);
+            }
+            f.set(Some(left - 1));
+        }
+    });
+}
